@@ -231,6 +231,15 @@ def run_exec(root: str, spec: dict[str, Any], roles: dict[str, str], knobs: dict
             data = simenv.read_real(os.path.join(root, rel))
             outs[rel] = None if data is None else zlib.compress(data, 1)
     out["outs"] = outs
+    # digest of the output files with the (pid-dependent) sandbox path scrubbed: a symbol file can
+    # legitimately contain it (.incbin of an absolute path derives a label name from the path)
+    import hashlib
+
+    root_b, root_tb = root.encode(), root.replace("/", "_").replace(".", "_").encode()
+    out["outs_digest"] = {
+        rel: (None if z is None else hashlib.blake2b(zlib.decompress(z).replace(root_b, b"$ROOT").replace(root_tb, b"$ROOT"), digest_size=12).hexdigest())
+        for rel, z in outs.items()
+    }
     out["events"] = env.log
     out["fired"] = env.fired
     out["points"] = env.points()
